@@ -28,6 +28,13 @@ case_strategy = st.fixed_dictionaries({
     "policy": st.sampled_from(POLICIES),
     "transposed": st.booleans(),
     "threads": st.sampled_from([1, 2]),
+    # CuSP's own parameters (only for the CSR variant, >= 2 hosts): how hosts divide the reading, node/edge weights
+    # of the mixed read policy, synchronous master assignment, rounds between partitioning-state synchronisations
+    "readpolicy": st.sampled_from([-1, -1, 0, 1, 2]),
+    "nodeweight": st.sampled_from([0, 1, 7, 100]),
+    "edgeweight": st.sampled_from([0, 1, 3, 50]),
+    "cuspsync": st.booleans(),
+    "staterounds": st.sampled_from([100, 1, 2, 7]),
 })
 
 
@@ -90,8 +97,12 @@ def check(case, work):
            "-partition=" + policy, "-t", str(case["threads"]), "-vmode=dump", "-vout=" + os.path.join(work, "dump")]
     if transposed:
         cmd.append("-vtransposed")
+    elif case.get("readpolicy", -1) >= 0 and hosts > 1:
+        cmd += ["-vreadpolicy=%d" % case["readpolicy"], "-vnodeweight=%d" % case["nodeweight"], "-vedgeweight=%d" % case["edgeweight"],
+                "-vstaterounds=%d" % case["staterounds"]] + (["-vcuspsync"] if case["cuspsync"] else [])
     rc, out, err = run_cmd(cmd, timeout=120, env=env, cwd=work)
-    labels = {"policy": policy, "hosts": hosts, "transposed": transposed, "n": min(n, 50) // 10 * 10, "edges": min(len(edges), 100) // 20 * 20}
+    labels = {"policy": policy, "hosts": hosts, "transposed": transposed,
+              "readpolicy": case.get("readpolicy", -1) if (not transposed and hosts > 1) else -1, "n": min(n, 50) // 10 * 10, "edges": min(len(edges), 100) // 20 * 20}
     if rc != 0:
         msg = "\n".join(l for l in (err + out).split("\n") if l and not l.startswith(("DEBUG", "STAT", "PARAM")))[-400:]
         raise Violation("tool-failed", "dharness under mpirun -np %d exited %d: %s" % (hosts, rc, msg))
